@@ -50,13 +50,11 @@ TRUSTED_BASE = ['modelled (not verified) code: pybtex/database/__init__.py Perso
                 're objects through split_tex_string on the exhaustive character stream and a per-code-point sweep']
 ASSUMPTIONS = ['letter classes and case are modelled on ASCII (Base/PyChar.v); non-ASCII letters are outside the claimed domain (DESIGN.md 2.2)',
                'Python str.isspace / regex \\s = the 29 code points of Base/PyChar.is_space (re-measured on every run over all of Unicode)']
-PARTIAL = ['token_case_rule holds only for tokens without a backslash at brace level 1 (outside special characters) before the deciding character '
-           '(token_case_rule_partial); for the others the code deviates from the property text (token_case_rule_refuted, finding FC04a)',
-           'more than 100 nested braces in a token that does not start with a letter make Person() raise BibTeXError (a pybtex error, parse_name_guard, '
-           'known finding FC04b, reported by the oracle): parse_name_total says "no foreign exception, no divergence" for every string, parse_name_ok gives success for every string with <= 100 opening braces',
-           'tokenizer_spec (split_tex_string(s) = the brace-level tokenizer of Spec/Names.v) is proved for strings whose braces are all closed; for strings with an '
-           'unclosed group the code splits at inner braces, the property text fixes no brace level there and the oracle only demands conservation of characters; '
-           'the comma split has conservation and atomicity theorems only, its exact boundaries are checked by the oracle']
+PARTIAL = ['more than 100 nested braces in a token that does not start with a letter make Person() raise BibTeXError (a pybtex error, parse_name_guard, '
+           'known finding FC04b, reported by the oracle): parse_name_total says "no foreign exception, no divergence" for every string, parse_name_ok gives success '
+           'for every string with <= 100 opening braces',
+           'the comma split split_tex_string(s, \',\') has conservation and atomicity theorems only; its exact boundaries are checked by the oracle',
+           'letter classes are ASCII in the model']
 
 def describe(fn, a):
     return {'function': FUNCS[fn][0], 'args': [S(x) for x in a]}
@@ -108,7 +106,7 @@ def o_split(s, comma):
     pieces.append(''.join(cur))
     if comma:
         return [p.strip() for p in pieces]
-    return [p for p in pieces if p]
+    return [p.strip() for p in pieces if p]     # strip only matters for a token that ends inside a never-closed group
 
 def o_special_lower(inner):
     """inner = the special character without its outer braces, starting with the backslash"""
@@ -192,10 +190,10 @@ def oracle(fn, arg, out):
             ', '.join(repr(x) if len(x) < 60 else repr(x[:25] + '...' + x[-25:]) + ' (length %d, brace depth %d)' % (len(x), o_profile(x)[1]) for x in strs),)
     if fn in (4, 5):
         got = [S(t) for t in out[1]]
+        exp = o_split(strs[0], fn == 5) if strs[0] else []
+        if got != exp:
+            return 'split_tex_string(%r%s) = %r, tokens at brace level 0 are %r' % (strs[0], ", ','" if fn == 5 else '', got, exp)
         if closed:
-            exp = o_split(strs[0], fn == 5) if strs[0] else []
-            if got != exp:
-                return 'split_tex_string(%r%s) = %r, tokens at brace level 0 are %r' % (strs[0], ", ','" if fn == 5 else '', got, exp)
             for t in got:
                 if not o_profile(t)[0]:
                     return 'a braced group was split: token %r of %r' % (t, strs[0])
@@ -213,71 +211,22 @@ def oracle(fn, arg, out):
                 return 'empty or unstripped token %r' % (t,)
     if fn == 1 and len(middle) > 0 and len(first) != 1:
         return 'middle names without exactly one first name'
+    # (since the fix bae0311 a never-closed group extends to the end of the string, so the brace level is defined for every string)
+    exp, erep = o_expect(strs[0])
+    if fn == 2:
+        extra = [o_split(x, False) for x in strs[1:6]]
+        exp = [exp[k] + extra[k] for k in range(5)]
+    if lists[:5] != exp:
+        return 'Person(%s): first/middle/von/last/jr = %r, BibTeX rule gives %r' % (', '.join(map(repr, strs)), lists[:5], exp)
+    if rep != erep:
+        return 'too-many-commas report is %d, expected %d for %r' % (rep, erep, strs[0])
     if closed:
-        exp, erep = o_expect(strs[0])
-        if fn == 2:
-            extra = [o_split(x, False) for x in strs[1:6]]
-            exp = [exp[k] + extra[k] for k in range(5)]
-        if lists[:5] != exp:
-            return 'Person(%s): first/middle/von/last/jr = %r, BibTeX rule gives %r' % (', '.join(map(repr, strs)), lists[:5], exp)
-        if rep != erep:
-            return 'too-many-commas report is %d, expected %d for %r' % (rep, erep, strs[0])
         for t in sum(lists[:5], []):
             if not o_profile(t)[0]:
                 return 'a braced group was split: token %r' % (t,)
-        return None
-    # some brace is never closed: the property text does not fix the brace level; demand conservation only
-    if fn == 1:
-        want = o_content(strs[0])
-        a = o_content(''.join(first + middle + prelast + last + lineage))
-        b = o_content(''.join(prelast + last + lineage + first + middle))
-        if want != a and want != b:
-            return 'characters lost, duplicated or reordered: %r -> %r' % (strs[0], lists[:5])
     return None
 
 # ------------------------------------------------------------------------------------------
-# known finding FC04a: a backslash at brace level 1 that does not open a special character makes is_von_name
-# answer "not von" at once (scan_bibtex_string yields it as a level-1 token that startswith('\\'))
-def _quirk_positions(s):
-    """positions of backslashes at brace level 1 inside a group that is not a special character"""
-    pos, d, special, i, n = [], 0, False, 0, len(s)
-    sd = 0
-    while i < n:
-        c = s[i]
-        if special:
-            if c == '{':
-                sd += 1
-            elif c == '}':
-                if sd == 0:
-                    special = False
-                else:
-                    sd -= 1
-        elif c == '{':
-            if d == 0 and i + 1 < n and s[i + 1] == '\\':
-                special, sd = True, 0
-            else:
-                d += 1
-        elif c == '}':
-            if d > 0:
-                d -= 1
-        elif c == '\\' and d == 1:
-            pos.append(i)
-        i += 1
-    return pos
-
-def _neutralise(s):
-    q = set(_quirk_positions(s))
-    return ''.join('/' if i in q else c for i, c in enumerate(s))
-
-def _sig_fc04a(kind, fn, arg, detail):
-    if kind != 'oracle' or fn not in (1, 2):
-        return False
-    strs = [S(x) for x in arg]
-    if not _quirk_positions(strs[0]):
-        return False
-    arg2 = norm([_neutralise(strs[0])] + strs[1:])
-    return oracle(fn, arg2, FUNCS[fn][1](arg2)) is None
-
 # known finding FC04b: the recursion guard of BibTeXString (max_level = 100): a token that does not start with a letter and
 # nests braces more than 100 deep makes Person() raise BibTeXError('too many nested braces')
 def _sig_fc04b(kind, fn, arg, detail):
@@ -285,7 +234,7 @@ def _sig_fc04b(kind, fn, arg, detail):
         return False
     return max(o_profile(S(x))[1] for x in arg) > 100
 
-KNOWN_SIGNATURES = {'FC04a': _sig_fc04a, 'FC04b': _sig_fc04b}
+KNOWN_SIGNATURES = {'FC04b': _sig_fc04b}
 
 def replay_known(finding):
     p = finding.get('pinned')
@@ -307,7 +256,7 @@ def search_failing(ck, fn, arg, rng):
                 m = oracle(f, a, FUNCS[f][1](a))
             except Exception:
                 m = None
-            if m and not _sig_fc04a('oracle', f, a, m):
+            if m and not _sig_fc04b('oracle', f, a, m):
                 return (a, m) if f == fn else (a, '[via %s] %s' % (FUNCS[f][0], m))
     return None
 
@@ -319,7 +268,7 @@ ALPHA = 'aB ~,{}\\'
 POOL = ['Jean', 'de', 'la', 'von', 'Fontaine', '{Van}', "{\\'E}douard", "{\\'e}x", '1st', '{}', 'Jean-Paul', 'A.~B.', 'jr',
         '{\\relax van}', '\\LaTeX', "d'Aviano", '{\\a{b}', 'x\\ y', 'q\\~r', '{von der}', '{\\o}', '{\\OE}x', "{\\'{e}}", "{\\'{E}}b",
         '{A}b', '{a}B', '{{\\e}}x', '{-}x', '-x', '.Y', '{\\1a}', '{\\1A}', '{\\ab c}', '{\\ab C}', 'III', "{\\'}", '{x}{\\y Z}', 'a}b', 'M{\\"u}ller', "{\\'e"]
-PINNED = ['x ' + '{' * 101 + ' y', '~', '~ ~', '\\ ', ',', ',,', ',,,', '{', '}', '{\\', '{\\}', 'a,b,c,d,e', 'a,b,c\\,d', '~,~', ' , ', 'Jean {a\\b}c Last', '{a\\b}c Last, Jean',
+PINNED = ['x ' + '{' * 101 + '}' * 101 + ' y', 'x ' + '{' * 101 + ' y', '~', '~ ~', '\\ ', ',', ',,', ',,,', '{', '}', '{\\', '{\\}', 'a,b,c,d,e', 'a,b,c\\,d', '~,~', ' , ', 'Jean {a\\b}c Last', '{a\\b}c Last, Jean',
           'Jean {ab}c Last', 'Jean {\\o} Last', '{' * 101 + 'a', 'a ' + '{' * 101 + 'a', '{' * 100 + 'a' + '}' * 100 + ' b', 'de la Fontaine', 'Jean de la Fontaine',
           'de la Fontaine, Jean', 'de la Fontaine, jr, Jean', 'Jean de', 'de', 'jean de la fontaine', 'Jean de La Fontaine du Bois Joli', 'Jean {de} la Fontaine',
           '{a{b c d', '{a{b, c', 'a{b} c}d {e', 'x\\~y z', 'x\\\\~y z', 'x\\\\ y', 'a b', 'a b　c', 'A,\\ B', '\\', 'a\\', '{\\a b} c', '{\\a, b}, c']
